@@ -181,7 +181,10 @@ fn ram_diff(emu: &Emu, m128: bool, want: &[Vec<u8>]) -> Vec<Value> {
 }
 
 fn dirty_emulator(r: &mut Rng, m128: bool, kind: &str) -> Emu {
-    let mut emu = EmuCfg::new(m128).build();
+    let mut cfg = EmuCfg::new(m128);
+    cfg.sound = true;
+    cfg.ay = true;
+    let mut emu = cfg.build();
     // junk everywhere the snapshot will write
     for b in banks_of(m128) {
         let junk: Vec<u8> = (0..16384u32).map(|o| hash8(r.0, o as u64 + b as u64 * 16384)).collect();
@@ -296,11 +299,216 @@ fn roundtrips(out: &mut Out, r: &mut Rng, count: u64) {
     }
 }
 
+fn ay_readback(emu: &mut Emu) -> Vec<u8> {
+    (0..16u8)
+        .map(|k| {
+            out_port(emu, 0xFFFD, k);
+            in_port(emu, 0xFFFD)
+        })
+        .collect()
+}
+
+fn in_port(emu: &mut Emu, port: u16) -> u8 {
+    let (a, b) = (emu.peek(0x8000), emu.peek(0x8001));
+    poke_bytes(emu, 0x8000, &[0xED, 0x78]);
+    let saved = {
+        let c = emu.verif_cpu();
+        (c.regs.get_bc(), c.regs.get_af(), c.regs.get_pc(), c.regs.get_r(), c.halted, c.skip_interrupt, c.regs.get_iff1())
+    };
+    {
+        let c = emu.verif_cpu();
+        c.regs.set_bc(port);
+        c.regs.set_pc(0x8000);
+        c.regs.set_iff1(false);
+        c.halted = false;
+        c.skip_interrupt = false;
+    }
+    step(emu);
+    let v = emu.verif_cpu().regs.get_acc();
+    poke_bytes(emu, 0x8000, &[a, b]);
+    let c = emu.verif_cpu();
+    c.regs.set_bc(saved.0);
+    c.regs.set_af(saved.1);
+    c.regs.set_pc(saved.2);
+    c.regs.set_r(saved.3);
+    c.halted = saved.4;
+    c.skip_interrupt = saved.5;
+    c.regs.set_iff1(saved.6);
+    v
+}
+
+/// C14: independently written files loaded into emulators of either model
+fn fileloads(out: &mut Out, r: &mut Rng, count: u64) {
+    for i in 0..count {
+        let m_file = i % 2 == 1;
+        let seed = r.below(1 << 16) as u32;
+        let (mut d, mut ramw) = random_desc(r, m_file, seed);
+        if r.chance(1, 2) {
+            d.cpu.iff1 = r.chance(1, 2); // SZX carries IFF1 separately
+        }
+        // a HALT at PC-1 and at PC followed by INC A: whatever PC convention the format uses for a halted
+        // CPU, a machine that "is halted" must not get to the INC A
+        let pc = 0x9000 + (r.u16() & 0x0FFF);
+        d.cpu.pc = pc;
+        for (k, v) in [(pc.wrapping_sub(1), 0x76u8), (pc, 0x76), (pc + 1, 0x3C), (pc + 2, 0x18), (pc + 3, 0xFD)] {
+            let (bank, off) = (2usize, k - 0x8000);
+            d.banks[bank][off as usize] = v;
+            ramw.push((bank, off, v));
+        }
+        if d.cpu.sp >= 0x8FF0 && d.cpu.sp <= 0xA010 {
+            d.cpu.sp = 0x7000;
+        }
+        // interrupts, if enabled, go to the ROM's IM 1 handler (an IM 2 table in random memory would run wild)
+        d.cpu.im = 1;
+        let halted = r.chance(1, 4);
+        if halted {
+            d.cpu.iff1 = false;
+            d.cpu.iff2 = false;
+        }
+        let eilast = !halted && r.chance(1, 4);
+        let mut ayregs = [0u8; 16];
+        for (k, v) in ayregs.iter_mut().enumerate() {
+            *v = r.u8() & [0xFF, 0x0F, 0xFF, 0x0F, 0xFF, 0x0F, 0x1F, 0xFF, 0x1F, 0x1F, 0x1F, 0xFF, 0xFF, 0x0F, 0xFF, 0xFF][k];
+        }
+        let audible = r.chance(1, 2);
+        if audible {
+            // channel A: tone period 0x0123, tone enabled, volume 15, no envelope
+            ayregs[0] = 0x23;
+            ayregs[1] = 0x01;
+            ayregs[7] = 0xFE;
+            ayregs[8] = 0x0F;
+        } else {
+            ayregs[8] = 0;
+            ayregs[9] = 0;
+            ayregs[10] = 0;
+        }
+        let ay = if r.chance(2, 3) { Some((r.below(16) as u8, ayregs)) } else { None };
+        let mouse = match r.below(3) { 0 => None, 1 => Some(2u8), _ => Some(0u8) };
+        let encs: Vec<(&str, Vec<u8>)> = vec![
+            ("sna", if m_file { sna128(&d) } else { sna48(&d) }),
+            ("szx", szx(&d, &SzxOpts { halted, eilast, ay, mouse, ..Default::default() })),
+            ("szxz", szx(&d, &SzxOpts { compressed: true, shuffle: r.next() | 1, junk_chunks: true, halted, eilast, ay, mouse, ..Default::default() })),
+        ];
+        let ramw_j: Vec<Value> = ramw.iter().map(|(b, o, v)| json!([b, o, v])).collect();
+        for (enc, bytes) in encs.iter() {
+            for target in ["fresh", "halted", "prefix", "locked", "ei", "othermodel"] {
+                let m_emu = if target == "othermodel" { !m_file } else { m_file };
+                let mut rx = match target {
+                    "fresh" | "othermodel" => {
+                        let mut c = EmuCfg::new(m_emu);
+                        c.sound = true;
+                        c.ay = true;
+                        c.mouse = r.chance(1, 2);
+                        c.build()
+                    }
+                    k => dirty_emulator(r, m_emu, k),
+                };
+                let before = machine_state(&mut rx);
+                let b2 = bytes.clone();
+                let is_sna = *enc == "sna";
+                let res = guarded(|| {
+                    if is_sna {
+                        rx.load_snapshot(Snapshot::Sna(VAsset::new(b2)))
+                    } else {
+                        rx.load_snapshot(Snapshot::Szx(VAsset::new(b2)))
+                    }
+                });
+                let (outcome, detail) = match &res {
+                    Ok(Ok(())) => ("ok", String::new()),
+                    Ok(Err(e)) => ("err", format!("{e:?}")),
+                    Err(p) => ("panic", p.clone()),
+                };
+                let mut ev = json!({"ev":"fileload","enc":enc,"target":target,"m_file": if m_file {128} else {48},
+                                    "m_emu": if m_emu {128} else {48},"seed":seed,"ramw":ramw_j,
+                                    "desc":{"cpu":d.cpu.json(),"border":d.border,"latch":d.latch},
+                                    "opts":{"halted":halted && !is_sna,"eilast":eilast && !is_sna,
+                                            "ay": if is_sna || ay.is_none() { json!([]) } else { json!([{"cur":ay.unwrap().0,"regs":ay.unwrap().1.to_vec()}]) },
+                                            "mouse": if is_sna { -1 } else { mouse.map(|m| m as i32).unwrap_or(-1) },
+                                            "audible": audible && !is_sna && ay.is_some()},
+                                    "outcome":outcome,"detail":detail,"is_sna":is_sna,"before":before});
+                if outcome == "ok" && m_emu == m_file {
+                    let st = machine_state(&mut rx);
+                    let mut want = d.banks.clone();
+                    if is_sna && !m_file {
+                        let spm2 = d.cpu.sp.wrapping_sub(2);
+                        for (k, b) in d.cpu.pc.to_le_bytes().iter().enumerate() {
+                            let a = spm2.wrapping_add(k as u16);
+                            if a >= 0x4000 {
+                                let (bank, off) = match a >> 14 { 1 => (5, a - 0x4000), 2 => (2, a - 0x8000), _ => (0, a - 0xC000) };
+                                want[bank][off as usize] = *b;
+                            }
+                        }
+                    }
+                    ev["state"] = st;
+                    ev["ram_diff"] = json!(ram_diff(&rx, m_file, &want));
+                    if !is_sna {
+                        ev["ay_readback"] = json!(ay_readback(&mut rx));
+                        rx.send_mouse_pos_diff(5, 0);
+                        let x1 = in_port(&mut rx, 0xFBDF);
+                        rx.send_mouse_pos_diff(3, 0);
+                        let x2 = in_port(&mut rx, 0xFBDF);
+                        ev["mouse_present"] = json!(x1 != x2);
+                        // behaviour: three frames later
+                        let guard = guarded(|| {
+                            rx.set_debug_interface(VDebug::Never);
+                            rx.set_speed(rustzx_core::EmulationMode::FrameCount(1));
+                            let mut energy = 0f64;
+                            let mut n = 0usize;
+                            for _ in 0..3 {
+                                let _ = rx.emulate_frames(std::time::Duration::from_secs(100));
+                                let mut samples = vec![];
+                                while let Some(s) = rx.next_audio_sample() {
+                                    samples.push(s.left as f64 + s.right as f64);
+                                }
+                                let mean = samples.iter().sum::<f64>() / samples.len().max(1) as f64;
+                                energy += samples.iter().map(|x| (x - mean).abs()).sum::<f64>();
+                                n += samples.len();
+                            }
+                            (energy, n)
+                        });
+                        if let Ok((energy, n)) = guard {
+                            ev["after3"] = json!({"a": rx.verif_cpu().regs.get_acc(), "halted": rx.verif_cpu().halted,
+                                                   "pc": rx.verif_cpu().regs.get_pc(), "energy": (energy * 1000.0) as u64, "samples": n});
+                        } else {
+                            ev["after3"] = json!({"a": -1, "halted": false, "pc": 0, "energy": 0, "samples": 0});
+                            ev["detail"] = json!(guard.err());
+                        }
+                    }
+                }
+                out.ev(ev);
+            }
+        }
+    }
+}
+
+/// C14: SCR files
+fn scrloads(out: &mut Out, r: &mut Rng, count: u64) {
+    use rustzx_core::host::Screen;
+    for i in 0..count {
+        let m128 = i % 2 == 1;
+        let len = match i % 5 { 4 => *r.pick(&[0usize, 6911, 6913, 49179]), _ => 6912 };
+        let bytes = r.bytes(len);
+        let kind = *r.pick(&["border", "halted", "locked"]);
+        let mut emu = dirty_emulator(r, m128, kind);
+        let res = guarded(|| emu.load_screen(Screen::Scr(VAsset::new(bytes.clone()))));
+        let outcome = match &res { Ok(Ok(())) => "ok", Ok(Err(_)) => "err", Err(_) => "panic" };
+        let diff: Vec<Value> = if outcome == "ok" {
+            (0..6912usize).filter(|o| emu.peek(0x4000 + *o as u16) != bytes[*o]).take(8).map(|o| json!([o, bytes[o], emu.peek(0x4000 + o as u16)])).collect()
+        } else {
+            vec![]
+        };
+        out.ev(json!({"ev":"scrload","m": if m128 {128} else {48},"len":len,"outcome":outcome,"diff":diff,
+                      "detail": res.err().unwrap_or_default()}));
+    }
+}
+
 pub fn run(args: &Args) {
     let mut out = Out::create(&args.str("out", "-"));
     let seed = args.num("seed", 1);
     let mut r = Rng::new(seed ^ 0xC13);
     roundtrips(&mut out, &mut r, args.num("roundtrips", 0));
+    fileloads(&mut out, &mut r, args.num("fileloads", 0));
+    scrloads(&mut out, &mut r, args.num("scrloads", 0));
     let n = out.finish();
     eprintln!("snapshot: {n} events");
 }
